@@ -39,10 +39,25 @@ func (f *Listx) Call(s *slip.Scope, args slip.List, depth int) (result slip.Obje
 	case 1:
 		result = args[0]
 	default:
-		list := make(slip.List, len(args))
-		copy(list, args)
-		list[len(list)-1] = slip.Tail{Value: list[len(list)-1]}
-		result = list
+		last := len(args) - 1
+		switch cdr := args[last].(type) {
+		case nil:
+			list := make(slip.List, last)
+			copy(list, args)
+			result = list
+		case slip.List:
+			// A list as the last argument is the tail of the result and
+			// not an element of it.
+			list := make(slip.List, last+len(cdr))
+			copy(list, args[:last])
+			copy(list[last:], cdr)
+			result = list
+		default:
+			list := make(slip.List, len(args))
+			copy(list, args)
+			list[last] = slip.Tail{Value: cdr}
+			result = list
+		}
 	}
 	return
 }
